@@ -298,14 +298,20 @@ func trFunc(fd *ast.FuncDecl) string {
 	ptyp := "P"
 	name := fd.Name.Name
 	fields := fd.Type.Params.List
+	recvPoint := false
 	if fd.Recv != nil {
 		fields = append(append([]*ast.Field{}, fd.Recv.List...), fields...)
-		name = "Bounds_" + name
+		if id, ok := fd.Recv.List[0].Type.(*ast.Ident); ok && id.Name == "Point" { // (Point).Equals
+			recvPoint = true
+			name = "Point_" + name
+		} else {
+			name = "Bounds_" + name
+		}
 	}
 	for _, f := range fields {
 		switch t := f.Type.(type) {
 		case *ast.Ident:
-			if t.Name != "Point" || fd.Recv != nil {
+			if t.Name != "Point" || (fd.Recv != nil && !recvPoint) {
 				fail("%s: parameter type outside the subset", fd.Name.Name)
 			}
 		case *ast.StarExpr:
@@ -348,9 +354,9 @@ func extract(repo string) (out string, err error) {
 		method   bool // a (*Bounds) method: comparisons only, translated once (nothing to round)
 	}{
 		{"simplify.go", "pointSubtract", false}, {"simplify.go", "pointOnSegment", false}, {"within.go", "rayIntersectsSegment", false},
-		{"bounds.go", "Empty", true}, {"bounds.go", "Overlaps", true}}
+		{"bounds.go", "Empty", true}, {"bounds.go", "Overlaps", true}, {"point.go", "Equals", true}}
 	var b strings.Builder
-	b.WriteString("import GeomV.C02.Model\n/-! GENERATED by `harness/cmd/c02 extract` from simplify.go and within.go of the tree under test.\nDo not edit; regenerated by every `bin/check C02` run (checks/C02.py pregen). -/\nnamespace GeomV.C02.Gen\nopen GeomV GeomV.C02\n\n")
+	b.WriteString("import GeomV.C02.GenLib\n/-! GENERATED by `harness/cmd/c02 extract` from simplify.go, within.go, bounds.go, area.go, point.go, multipoint.go,\nlinestring.go, multilinestring.go and polygon.go of the tree under test.\nDo not edit; regenerated by every `bin/check C02` run (checks/C02.py pregen). -/\nset_option linter.unusedVariables false\nnamespace GeomV.C02.Gen\nopen GeomV GeomV.C02\n\n")
 	fset := token.NewFileSet()
 	for pass := 0; pass < 2; pass++ {
 		rmode = pass == 1
@@ -379,7 +385,8 @@ func extract(repo string) (out string, err error) {
 		}
 	}
 	rmode = false
-	b.WriteString("end GeomV.C02.GenR\n")
+	b.WriteString("end GeomV.C02.GenR\n\n")
+	b.WriteString(extractLoops(repo))
 	return b.String(), nil
 }
 
